@@ -1,0 +1,76 @@
+//go:build verif
+
+package simpledb
+
+import (
+	"github.com/thomasjungblut/go-sstables/memstore"
+	"github.com/thomasjungblut/go-sstables/sstables/proto"
+)
+
+// This file only exists under the "verif" build tag. It gives an external verification harness
+// deterministic control over when memstore rotations, flushes and compaction cycles happen.
+// Every helper calls the very same unexported functions the regular code paths call.
+
+// VerifTable describes one live sstable, in the order the manager holds them (oldest first).
+type VerifTable struct {
+	Path string
+	Meta *proto.MetaData
+}
+
+// VerifRotate forces what a full memstore triggers inside PutBytes: rotate the WAL and hand the memstore to the flusher.
+func (db *DB) VerifRotate() error {
+	db.rwLock.Lock()
+	defer db.rwLock.Unlock()
+
+	if !db.open {
+		return ErrNotOpenedYet
+	}
+	if db.closed {
+		return ErrAlreadyClosed
+	}
+	return db.rotateWalAndFlushMemstore()
+}
+
+// VerifWaitFlushIdle returns once every memstore handed to the flusher before this call has been written and installed.
+// It sends an empty memstore over the (unbuffered) flush channel: the flusher only receives it after it is done with
+// the previous one, and it skips empty stores.
+func (db *DB) VerifWaitFlushIdle() error {
+	db.rwLock.Lock()
+	defer db.rwLock.Unlock()
+
+	if !db.open {
+		return ErrNotOpenedYet
+	}
+	if db.closed {
+		return ErrAlreadyClosed
+	}
+	empty := memstore.NewMemStore()
+	db.storeFlushChannel <- memStoreFlushAction{memStore: &empty, walPath: ""}
+	return nil
+}
+
+// VerifCompactOnce runs exactly the body of one tick of backgroundCompaction. It returns the (base names of the) tables
+// that were selected, and the name the merged table took; selected is empty when nothing was eligible.
+func (db *DB) VerifCompactOnce() (selected []string, replacement string, err error) {
+	metadata, err := executeCompaction(db)
+	if err != nil {
+		return nil, "", err
+	}
+	if metadata == nil {
+		return nil, "", nil
+	}
+	err = db.sstableManager.reflectCompactionResult(metadata)
+	return metadata.SstablePaths, metadata.ReplacementPath, err
+}
+
+// VerifTables lists the live tables, oldest first.
+func (db *DB) VerifTables() []VerifTable {
+	db.sstableManager.managerLock.RLock()
+	defer db.sstableManager.managerLock.RUnlock()
+
+	var out []VerifTable
+	for _, r := range db.sstableManager.allSSTableReaders {
+		out = append(out, VerifTable{Path: r.BasePath(), Meta: r.MetaData()})
+	}
+	return out
+}
